@@ -362,7 +362,7 @@ func (b *Block) Value() (interface{}, error) {
 func (b *Block) expandBlockdata() ([]byte, error) {
 	switch b.method {
 	default:
-		panic(fmt.Sprintf("cram: unknown method: %v", b.method))
+		return nil, fmt.Errorf("cram: unknown method: %v", b.method)
 	case rawMethod:
 		return b.blockData, nil
 	case gzipMethod:
